@@ -513,7 +513,88 @@ func c13ComeAndGo(w *core.WorkerCtx) {
 	w.R.Count("c13_come_and_go_scenarios", 1)
 }
 
+// c13SubscriberStalled: four vertices of a chain are parked, their first ancestor arrives, and right then a local
+// proposal keeps the ledger lock for six seconds (it validates the tip, whose verification is slow the second time),
+// i.e. for three ticks of the orphan buffer: the routine that replays parked vertices is stuck behind the lock while the
+// ticker keeps handing it vertices. Afterwards every one of the four must be admitted by the node's own ticker - the
+// retry hook is not used here.
+func c13SubscriberStalled(w *core.WorkerCtx) {
+	rng := core.Rand(w.Seed, "C13stalled", w.Batch)
+	desc := fmt.Sprintf("c13 replay routine stalled behind the ledger lock for three ticks seed=%d batch=%d", w.Seed, w.Batch)
+	w.Mark("%s", desc)
+	world := ledger.NewWorld(rng, w.R, []string{"C13"}, allSnapOracles, desc)
+	world.SlowRepeat = 6 * time.Second
+	defer world.Close()
+	if _, err := ledger.Setup(world, ledger.Profile{Nodes: 1, Users: 4, SupplyClass: 0, Delivery: "lockstep"}); err != nil {
+		w.R.Inconc("setup failed: " + err.Error())
+		return
+	}
+	n := world.Nodes[0]
+	u := world.Users
+	s := n.Prev
+	var tip ledger.H
+	var wgt uint64
+	for th := range s.Leaves {
+		if tv, ok := s.Vertex(th); ok && tv.Weight >= wgt {
+			tip, wgt = th, tv.Weight
+		}
+	}
+	var chain []accountant.Vertex
+	prev, pw := tip, wgt
+	for i := 0; i < 5; i++ {
+		t := world.NewTrx(u[0], u[1+i%3].Addr, spice.Melange{}, []byte(fmt.Sprintf("chain %d", i)))
+		v := ledger.ForgeVertex(world.Sealers[i%2], t, prev, prev, pw+1, world.Now())
+		chain = append(chain, v)
+		prev, pw = v.Hash, v.Weight
+	}
+	world.SlowAfterFirst(chain[0].Hash)
+	for i := 4; i >= 1; i-- {
+		if err := world.Deliver(n, &chain[i], "vertex before its ancestors"); !ledger.IsParked(err) {
+			w.R.Note(fmt.Sprintf("stalled subscriber: vertex %d was not parked: %v", i, err))
+		}
+	}
+	if err := world.Deliver(n, &chain[0], "the first ancestor"); err != nil {
+		w.R.Inconc("stalled subscriber: the first ancestor was refused: " + err.Error())
+		return
+	}
+	// the proposal validates the tip (the first ancestor): its second verification takes six seconds, under the lock
+	start := time.Now()
+	t := world.NewTrx(u[0], u[1].Addr, spice.Melange{}, []byte("slow local proposal"))
+	world.Quiet = true
+	_, perr := world.Propose(n, &t, "local proposal that holds the ledger lock for three ticks")
+	world.Quiet = false
+	held := time.Since(start)
+	// now the node's own ticker has all the time it needs: one parked vertex per two seconds, 25 tries each
+	admitted := 0
+	for k := 0; k < 80; k++ {
+		admitted = 0
+		for i := 1; i <= 4; i++ {
+			if _, err := n.Book.ReadVertex(world.Ctx, chain[i].Hash); err == nil {
+				admitted++
+			}
+		}
+		if admitted == 4 {
+			break
+		}
+		time.Sleep(500 * time.Millisecond)
+	}
+	world.Observe(n, ledger.OpInfo{Kind: "retry", OK: true})
+	world.EvalFor("C13", 1)
+	world.NontrivFor("C13", fmt.Sprintf("subscriber-stalled/held%ds/admitted%d", int(held.Seconds()), admitted))
+	w.R.Count("c13_stalled_subscriber_scenarios", 1)
+	if held < 4*time.Second {
+		w.R.Note(fmt.Sprintf("stalled subscriber: the proposal held the lock for %v only (result %v)", held, perr))
+		return
+	}
+	if admitted != 4 {
+		world.Violate("C13", "parked-vertex-never-admitted/replay-routine-stalled", fmt.Sprintf("four vertices were parked and their ancestor arrived; a local proposal then held the ledger lock for %v; 40 seconds later the node's own ticker has admitted %d of the four (still parked: %d)", held.Round(time.Second), admitted, n.Book.VerifParkedLen()))
+	}
+}
+
 func c13Worker(w *core.WorkerCtx) {
+	if w.Batch == 3 || (w.Thorough() && w.Batch%4 == 3) {
+		c13SubscriberStalled(w)
+	}
 	if w.Batch == 1 || (w.Thorough() && w.Batch%4 == 1) {
 		c13LongLived(w)
 	}
